@@ -81,6 +81,7 @@ package tally
 //@ extern interface StopwatchRecorder
 //@ extern interface Timer
 //@ extern interface Counter
+//@ extern interface io.Closer
 //@ assume Timer.Start ensures result.recorder != nil
 
 //@ pred one_more() { len(calls) == old(len(calls)) + 1 && (forall j int :: 0 <= j && j < old(len(calls)) ==> calls[j] == old(calls[j])) }
@@ -717,3 +718,129 @@ package tally
 //@   ensures @no_cached_reporter_no_calls s.cachedReporter == nil ==> quiet()
 //@   witness created *histogram = h#3
 //@   ensures @new_histogram_uses_requested_bounds created != nil ==> created == dyn(result, *histogram) && sameSpec(created.specification, (b == nil ? s.defaultBuckets : b))
+
+// ---------------------------------------------------------------------------
+// Registry: subscope close, report passes (C07, C08, C09, C05)
+
+//@ initonly scope.separator, scope.prefix, scope.tags, scope.reporter, scope.cachedReporter, scope.baseReporter, scope.defaultBuckets, scope.sanitizer, scope.registry, scope.bucketCache, scope.done, scope.root, scope.testScope, scope.counters, scope.gauges, scope.timers, scope.histograms
+//@ initonly scopeRegistry.root, scopeRegistry.subscopes, scopeRegistry.omitCardinalityMetrics, scopeRegistry.cardinalityMetricsTags, scopeRegistry.sanitizedCounterCardinalityName, scopeRegistry.sanitizedGaugeCardinalityName, scopeRegistry.sanitizedHistogramCardinalityName, scopeRegistry.sanitizedScopeCardinalityName, scopeRegistry.cachedCounterCardinalityGauge, scopeRegistry.cachedGaugeCardinalityGauge, scopeRegistry.cachedHistogramCardinalityGauge, scopeRegistry.cachedScopeCardinalityGauge
+//@ initonly scopeBucket.s, bucketCache.cache, counter.cachedCount, gauge.cachedGauge, timer.name, timer.tags, timer.reporter, timer.cachedTimer
+//@ initonly histogram.htype, histogram.name, histogram.tags, histogram.reporter, histogram.specification, histogram.buckets, histogram.samples
+//@ monotone scope.closed
+//@ mark closedSeen, flushed
+//@ on load scope.closed: closedSeen[self] = closedSeen[self] || after
+//@ on call (*scope).report: flushed[s] = closedSeen[s]
+//@ on call (*scope).cachedReport: flushed[s] = closedSeen[s]
+
+//@ lock scopeBucket.mu self b protects s
+//@   property C07, C09, C05
+//@   inv @entries_are_scopes b.s != nil && (forall k string :: k in b.s ==> b.s[k] != nil && scopeWF(b.s[k]))
+//@   guar @only_closed_scopes_are_unregistered forall k string :: old(k in b.s) && !old(b.s[k].closed) ==> k in b.s && b.s[k] == old(b.s[k])
+
+//@ func (*scopeRegistry).lockedLookup
+//@   property C05, C09
+//@   requires r != nil && subscopeBucket != nil
+//@   holds subscopeBucket.mu R
+//@   ensures @map_lookup result1 == (key in subscopeBucket.s) && (result1 ==> result0 == subscopeBucket.s[key])
+//@   ensures @quiet quiet()
+
+//@ func (*scopeRegistry).removeWithRLock
+//@   property C07
+//@   requires r != nil && subscopeBucket != nil
+//@   holds subscopeBucket.mu R
+//@   acquires subscopeBucket.mu
+//@   modifies subscopeBucket.s
+//@   ensures @quiet quiet()
+
+//@ func (*scope).clearMetrics
+//@   property C07, C08
+//@   requires scopeWF(s) && s.closed
+//@   requires @reported_after_close_was_observed flushed[s]
+//@   acquires s.cm, s.gm, s.tm, s.hm
+//@   modifies s.counters, s.countersSlice, s.gauges, s.gaugesSlice, s.timers, s.histograms, s.histogramsSlice
+//@   ensures @emptied len(s.counters) == 0 && len(s.gauges) == 0 && len(s.timers) == 0 && len(s.histograms) == 0
+//@   ensures @quiet quiet()
+//@   loop 1 invariant @deleting s.counters != nil && (forall k string :: seen(k) ==> !(k in s.counters)) && quiet()
+//@   loop 2 invariant @deleting s.gauges != nil && (forall k string :: seen(k) ==> !(k in s.gauges)) && len(s.counters) == 0 && quiet()
+//@   loop 3 invariant @deleting s.timers != nil && (forall k string :: seen(k) ==> !(k in s.timers)) && len(s.counters) == 0 && len(s.gauges) == 0 && quiet()
+//@   loop 4 invariant @deleting s.histograms != nil && (forall k string :: seen(k) ==> !(k in s.histograms)) && len(s.counters) == 0 && len(s.gauges) == 0 && len(s.timers) == 0 && quiet()
+
+//@ pred bucketInv(b *scopeBucket) { b != nil && b.s != nil && (forall k string :: k in b.s ==> b.s[k] != nil && scopeWF(b.s[k])) }
+//@ pred registryWF(r *scopeRegistry) { r != nil && r.root != nil && scopeWF(r.root) && (forall i int :: 0 <= i && i < len(r.subscopes) ==> r.subscopes[i] != nil) }
+
+//@ func (*scopeRegistry).reportInternalMetrics
+//@   property C06
+//@   trusted
+//@   emits
+//@   requires registryWF(r)
+
+//@ pred rootWF(s *scope) { scopeWF(s) && s.registry != nil && registryWF(s.registry) && (s.reporter != nil ==> same(s.baseReporter, iface2(s.reporter.tag, s.reporter.pay))) }
+
+//@ func (*scope).reportRegistry
+//@   property C08
+//@   emits
+//@   requires rootWF(s)
+//@   modifies *
+//@   ensures @prefix_kept forall j int :: 0 <= j && j < old(len(calls)) ==> calls[j] == old(calls[j])
+//@   ensures @flush_is_last_plain s.reporter != nil ==> len(calls) > old(len(calls)) && calls[len(calls)-1] == ev(BaseStatsReporter.Flush, s.reporter)
+//@   ensures @flush_is_last_cached s.reporter == nil && s.cachedReporter != nil ==> len(calls) > old(len(calls)) && calls[len(calls)-1] == ev(BaseStatsReporter.Flush, s.cachedReporter)
+//@   ensures @no_reporter_no_effect s.reporter == nil && s.cachedReporter == nil ==> quiet()
+
+//@ func (*scope).Close
+//@   property C07, C08
+//@   emits
+//@   requires scopeWF(s) && s.done != nil && (!s.closed ==> !closed(s.done))
+//@   requires s.root ==> rootWF(s)
+//@   modifies s.closed, chanstate(s.done)
+//@   modifies if !s.closed && s.root : *
+//@   ensures @closed_after s.closed
+//@   ensures @second_close_is_a_no_op old(s.closed) ==> result == nil && quiet()
+//@   ensures @subscope_close_is_local !old(s.closed) && !old(s.root) ==> result == nil && len(calls) == old(len(calls)) + 1 && calls[old(len(calls))] == evn("chan.close", old(s.done))
+//@   ensures @prefix_kept forall j int :: 0 <= j && j < old(len(calls)) ==> calls[j] == old(calls[j])
+//@   ensures @done_closed_once !old(s.closed) ==> calls[old(len(calls))] == evn("chan.close", old(s.done))
+//@   ensures @root_final_flush_then_reporter_close !old(s.closed) && old(s.root) && old(s.reporter != nil) ==> (old(implements(s.baseReporter, io.Closer)) ? calls[len(calls)-2] == ev(BaseStatsReporter.Flush, old(s.reporter)) && calls[len(calls)-1] == ev(io.Closer.Close, old(s.baseReporter)) && result.tag == res0(len(calls)-1) && result.pay == res1(len(calls)-1) : calls[len(calls)-1] == ev(BaseStatsReporter.Flush, old(s.reporter)) && result == nil)
+//@   ensures @reporting_goroutine_joined !old(s.closed) && old(s.root) ==> (exists p int :: old(len(calls)) <= p && p < len(calls) && calls[p] == evn("wg.Wait:.wg", s))
+
+//@ func (*scope).reportLoopRun
+//@   property C08
+//@   emits
+//@   requires rootWF(s)
+//@   modifies if !s.closed : *
+//@   ensures @closed_means_no_pass old(s.closed) ==> quiet()
+
+//@ func (*scopeRegistry).Report
+//@   property C07, C08
+//@   emits
+//@   requires registryWF(r) && reporter != nil
+//@   modifies *
+//@   loop 1 invariant @idx 0 <= rangeindex + 1 && rangeindex + 1 <= len(r.subscopes) && registryWF(r) && reporter != nil
+//@   loop 2 invariant @bucket bucketInv(subscopeBucket) && registryWF(r) && reporter != nil && 0 <= rangeindex && rangeindex < len(r.subscopes)
+
+//@ func (*scopeRegistry).CachedReport
+//@   property C07, C08
+//@   emits
+//@   requires registryWF(r)
+//@   modifies *
+//@   loop 1 invariant @idx 0 <= rangeindex + 1 && rangeindex + 1 <= len(r.subscopes) && registryWF(r)
+//@   loop 2 invariant @bucket bucketInv(subscopeBucket) && registryWF(r) && 0 <= rangeindex && rangeindex < len(r.subscopes)
+
+// (scope.report / cachedReport: see the C01/C04 section for the delivery clauses)
+//@ func (*scope).report
+//@   property C01, C04, C10
+//@   emits
+//@   requires scopeWF(s) && r != nil
+//@   acquires s.cm, s.gm, s.hm
+//@   modifies all counter.prev, all gauge.updated
+//@   loop 1 invariant @wf scopeWF(s) && r != nil && (forall k string :: k in s.counters ==> s.counters[k] != nil)
+//@   loop 2 invariant @wf scopeWF(s) && r != nil && (forall k string :: k in s.gauges ==> s.gauges[k] != nil)
+//@   loop 3 invariant @wf scopeWF(s) && r != nil && (forall k string :: k in s.histograms ==> s.histograms[k] != nil && histWF(s.histograms[k]) && (s.histograms[k].htype == valueHistogramType || s.histograms[k].htype == durationHistogramType))
+
+//@ func (*scope).cachedReport
+//@   property C01, C04, C10
+//@   emits
+//@   requires scopeWF(s)
+//@   acquires s.cm, s.gm, s.hm
+//@   modifies all counter.prev, all gauge.updated
+//@   loop 1 invariant @wf scopeWF(s) && 0 <= rangeindex + 1
+//@   loop 2 invariant @wf scopeWF(s) && 0 <= rangeindex + 1
+//@   loop 3 invariant @wf scopeWF(s) && 0 <= rangeindex + 1
